@@ -182,5 +182,15 @@ PROPS['C08'] = dict(
   outside=['Z_p representatives (the Cycle type carries no coefficients)', 'complexes beyond the bounds'],
   units=_u08)
 
+# ------------------------------------------------------------------------------------------------ C16
+_t16 = ['end', 'insert', 'remove_simplex', 'remove_vertex', 'contraction']
+PROPS['C16'] = dict(
+  explanation='Bounded symbolic execution of the real Toplex_map and Lazy_toplex_map (clang IR of the headers in /repo) driven in lock-step through symbolic histories of insertions, simplex removals (maximal and non-maximal), vertex removals and edge contractions; after every step membership of every vertex set, maximality, maximal cofaces, the number of stored simplices and of vertices are compared with an abstract-complex oracle, and the two variants with each other.',
+  bounds=dict(quick='n=3 labels, k=3 operations, three label sets ({0,1,2}, {1,5,9}, {7,2^31,3}); n=4, k=2', thorough='n=4, k=3; n=3, k=4'),
+  outside=['histories longer than k', 'more than 4 vertices', 'the lazy map is compared with the eager one after a contraction only when both keep the same vertex (the choice is an implementation detail)'],
+  units=[U('toplex_n3k3_l%d' % l, 'C16_toplex.cpp', ['VP_N=3', 'VP_K=3', 'VP_LABELS=%d' % l], cflags=['-U__SSE2__'], weight=5, must_reach=_t16) for l in range(3)]
+      + [U('toplex_n4k2', 'C16_toplex.cpp', ['VP_N=4', 'VP_K=2'], cflags=['-U__SSE2__'], weight=8, must_reach=_t16)]
+      + [U('toplex_n4k3', 'C16_toplex.cpp', ['VP_N=4', 'VP_K=3'], cflags=['-U__SSE2__'], tiers=['thorough'], weight=30, must_reach=_t16), U('toplex_n3k4', 'C16_toplex.cpp', ['VP_N=3', 'VP_K=4', 'VP_LABELS=1'], cflags=['-U__SSE2__'], tiers=['thorough'], weight=30, must_reach=_t16)])
+
 NOT_APPLICABLE = {}
 NOTES = 'Clauses outside every claim: real thread schedules/TBB execution (engine is sequential), iostream text I/O, GMP arbitrary precision, Eigen-based Coxeter point location under general affine maps, SIMD paths of boost::unordered_flat_map (compiled with -U__SSE2__), allocation failure, inputs beyond the stated bounds.'
